@@ -117,6 +117,33 @@ func c06Body(t *rapid.T) {
 		t.Fatalf("VERIF-TROUBLE: acknowledged phase did not complete")
 	}
 
+	// F-C05-resume-without-checkpoint (known finding, same root cause here): a channel without persisted checkpoint is reopened at
+	// the latest position by the resume, which would lose the failing rows. While it is listed the fault is injected only once
+	// both streams have their first checkpoint in the store (cases which had to wait for that are counted).
+	excludedNoCheckpoint := 0
+	if known("F-C05-resume-without-checkpoint") {
+		checkpointed := func() bool {
+			for id, c := range map[string]*srcColl{idA: cA, idB: cB} {
+				found := false
+				for _, pos := range w.listPositions(t, id) {
+					if _, has := pos.Positions[c.pch[0]]; has && pos.CollectionID == c.id {
+						found = true
+					}
+				}
+				if !found {
+					return false
+				}
+			}
+			return true
+		}
+		if !checkpointed() {
+			excludedNoCheckpoint = 1
+			if !waitTicking(p, pchs, 10*time.Second, checkpointed) {
+				t.Fatalf("VERIF-TROUBLE: no first checkpoint of both streams within 10 s")
+			}
+		}
+	}
+
 	// ---- phase 2: the fault
 	// (a store that also rejects the state update of the automatic pause is a double fault outside the statement: not generated)
 	class := rapid.SampledFrom([]string{"write_rejected", "write_rejected", "checkpoint_rejected", "unknown_partition"}).Draw(t, "class")
@@ -294,6 +321,7 @@ func c06Body(t *rapid.T) {
 	st.ClassIf(!sameTarget, "two_tasks_different_targets")
 	st.ClassIf(persistent, "persistent_fault")
 	st.ClassIf(packerMax > 1, "batched_writes")
+	st.Count("cases_excluded_by_F-C05-resume-without-checkpoint(fault injected after the first checkpoint of both streams)", excludedNoCheckpoint)
 	st.NonTrivial(pre > 0 || sameTarget)
 	st.Fingerprint(desc)
 	st.Sample(desc)
